@@ -14,6 +14,9 @@ use quote::ToTokens;
 use std::path::PathBuf;
 use syn::visit::Visit;
 
+#[path = "parsers_ext.rs"]
+mod ext;
+
 fn toks<T: ToTokens>(t: &T) -> String {
     t.to_token_stream().to_string().replace(' ', "")
 }
@@ -55,22 +58,95 @@ struct Sites<'a> {
     env: &'a dyn Fn(&str) -> Option<u128>,
     skip_index: bool,
     skip_arith: bool,
+    in_arith: usize,
+}
+
+/// Methods that panic on some argument whatever the receiver type is known to be, by name only (a syntactic
+/// scanner has no types: a `remove` on a map is reported like a `remove` on a `Vec`; each routine's rule says
+/// which reported sites it models).  `unwrap`/`expect` family first, then slice / collection / integer methods.
+const PANICKING_METHODS: &[&str] = &[
+    "unwrap", "expect", "unwrap_err", "expect_err", "unwrap_unchecked",
+    "copy_from_slice", "clone_from_slice", "split_at", "split_at_mut", "split_off", "swap", "swap_remove", "remove", "drain",
+    "rotate_left", "rotate_right", "chunks", "chunks_exact", "windows", "step_by", "pow", "abs", "div_euclid", "rem_euclid",
+    "next_power_of_two", "from_utf8_unchecked", "borrow_mut",
+];
+const PANICKING_MACROS: &[&str] = &["panic", "unreachable", "assert", "assert_eq", "assert_ne", "debug_assert", "debug_assert_eq", "debug_assert_ne", "todo", "unimplemented"];
+
+impl<'a> Sites<'a> {
+    /// Token-level scan of a macro argument list that is not a plain expression list (tracing's `?x` / `%x` /
+    /// `name = value` fields, `vec![x; n]`, patterns of `matches!`): over-approximates — every `[..]` group in
+    /// postfix position is an index, every listed method name after a `.` a call, every `+ - * / %` between two
+    /// operands an arithmetic site, nested macros are scanned recursively.
+    fn scan_tokens(&mut self, ts: proc_macro2::TokenStream) {
+        use proc_macro2::{Delimiter, TokenTree as TT};
+        let toks: Vec<TT> = ts.into_iter().collect();
+        let operand_before = |i: usize| -> bool {
+            i > 0 && match &toks[i - 1] {
+                TT::Ident(_) | TT::Literal(_) => true,
+                TT::Group(g) => matches!(g.delimiter(), Delimiter::Parenthesis | Delimiter::Bracket),
+                TT::Punct(p) => p.as_char() == '?',
+            }
+        };
+        for i in 0..toks.len() {
+            match &toks[i] {
+                TT::Group(g) => {
+                    if g.delimiter() == Delimiter::Bracket && operand_before(i) && !self.skip_index {
+                        self.out.push("index".into());
+                    }
+                    self.scan_tokens(g.stream());
+                }
+                TT::Ident(id) => {
+                    let name = id.to_string();
+                    let after_dot = i > 0 && matches!(&toks[i - 1], TT::Punct(p) if p.as_char() == '.');
+                    let called = matches!(toks.get(i + 1), Some(TT::Group(g)) if g.delimiter() == Delimiter::Parenthesis);
+                    if after_dot && called && PANICKING_METHODS.contains(&name.as_str()) {
+                        self.out.push(name.clone());
+                    }
+                    let is_macro = matches!(toks.get(i + 1), Some(TT::Punct(p)) if p.as_char() == '!') && matches!(toks.get(i + 2), Some(TT::Group(_)));
+                    if is_macro && PANICKING_MACROS.contains(&name.as_str()) {
+                        self.out.push(format!("{name}!"));
+                    }
+                }
+                TT::Punct(p) => {
+                    let c = p.as_char();
+                    let compound = matches!(toks.get(i + 1), Some(TT::Punct(q)) if q.as_char() == '=' && p.spacing() == proc_macro2::Spacing::Joint);
+                    let arrow = c == '-' && matches!(toks.get(i + 1), Some(TT::Punct(q)) if q.as_char() == '>');
+                    if ['+', '-', '*', '/', '%'].contains(&c) && operand_before(i) && !self.skip_arith && !arrow && (compound || toks.get(i + 1).is_some()) {
+                        // constant-only arithmetic cannot be told apart at token level: reported as well
+                        self.out.push(format!("arith:{c}"));
+                    }
+                }
+                TT::Literal(_) => {}
+            }
+        }
+    }
 }
 
 impl<'ast, 'a> Visit<'ast> for Sites<'a> {
     fn visit_expr_method_call(&mut self, m: &'ast syn::ExprMethodCall) {
         let n = m.method.to_string();
-        if ["unwrap", "expect", "unwrap_err", "expect_err", "unwrap_unchecked"].contains(&n.as_str()) {
+        if PANICKING_METHODS.contains(&n.as_str()) {
             self.out.push(n);
         }
         syn::visit::visit_expr_method_call(self, m);
     }
     fn visit_macro(&mut self, m: &'ast syn::Macro) {
         let n = m.path.segments.last().map(|s| s.ident.to_string()).unwrap_or_default();
-        if ["panic", "unreachable", "assert", "assert_eq", "assert_ne", "todo", "unimplemented"].contains(&n.as_str()) {
+        if PANICKING_MACROS.contains(&n.as_str()) {
             self.out.push(format!("{n}!"));
         }
-        syn::visit::visit_macro(self, m);
+        // the arguments of a macro are a token stream to syn: parse them as an expression list where that is what
+        // they are (format-like macros, `eyre!`, `vec![a, b]`), scan the tokens otherwise
+        use syn::parse::Parser;
+        let parser = syn::punctuated::Punctuated::<syn::Expr, syn::Token![,]>::parse_terminated;
+        match parser.parse2(m.tokens.clone()) {
+            Ok(exprs) => {
+                for e in exprs.iter() {
+                    self.visit_expr(e);
+                }
+            }
+            Err(_) => self.scan_tokens(m.tokens.clone()),
+        }
     }
     fn visit_expr_index(&mut self, i: &'ast syn::ExprIndex) {
         if !self.skip_index {
@@ -84,11 +160,17 @@ impl<'ast, 'a> Visit<'ast> for Sites<'a> {
             b.op,
             Add(_) | Sub(_) | Mul(_) | Div(_) | Rem(_) | Shl(_) | Shr(_) | AddAssign(_) | SubAssign(_) | MulAssign(_) | DivAssign(_) | RemAssign(_)
         );
-        if arith && !self.skip_arith && eval_const(&syn::Expr::Binary(b.clone()), self.env).is_err() {
-            self.out.push(format!("arith:{}", toks(&b.op)));
-            return; // do not report the sub-expressions again
-        }
         if arith && eval_const(&syn::Expr::Binary(b.clone()), self.env).is_ok() {
+            return; // constant expression
+        }
+        if arith && !self.skip_arith {
+            // one report per arithmetic expression tree; the operands are still searched for other kinds of sites
+            if self.in_arith == 0 {
+                self.out.push(format!("arith:{}", toks(&b.op)));
+            }
+            self.in_arith += 1;
+            syn::visit::visit_expr_binary(self, b);
+            self.in_arith -= 1;
             return;
         }
         syn::visit::visit_expr_binary(self, b);
@@ -96,7 +178,7 @@ impl<'ast, 'a> Visit<'ast> for Sites<'a> {
 }
 
 fn sites(block: &syn::Block, env: &dyn Fn(&str) -> Option<u128>, skip_index: bool, skip_arith: bool) -> Vec<String> {
-    let mut s = Sites { out: vec![], env, skip_index, skip_arith };
+    let mut s = Sites { out: vec![], env, skip_index, skip_arith, in_arith: 0 };
     s.visit_block(block);
     s.out
 }
@@ -698,7 +780,32 @@ pub fn generate(repo: &PathBuf) -> Result<String, String> {
         let file = parse_file(&repo.join(rel))?;
         for (ty, n, def) in [("BootstrapCacheStore", "load_cache_data", "loadCacheSites"), ("CacheData", "perform_cleanup", "cleanupSites"), ("CacheData", "try_remove_oldest_peers", "removeOldestSites")] {
             let f = impl_fn(&file, ty, None, n)?;
-            s.push_str(&format!("/-- {rel} `{ty}::{n}` -/\ndef {def} : List String := {}\n", lean_strs(&sites(&f.block, &no_env, false, false))));
+            let mut st = sites(&f.block, &no_env, false, false);
+            if n == "try_remove_oldest_peers" {
+                // `remove` is reported by name; here both receivers are hash maps (`HashMap::remove` returns an Option):
+                // `self.peers` (field type read from the struct) and the local `peer_last_seen_map` (bound to `HashMap::new()`)
+                struct Removes(Vec<String>);
+                impl<'ast> Visit<'ast> for Removes {
+                    fn visit_expr_method_call(&mut self, m: &'ast syn::ExprMethodCall) {
+                        if m.method == "remove" {
+                            self.0.push(toks(&m.receiver));
+                        }
+                        syn::visit::visit_expr_method_call(self, m);
+                    }
+                }
+                let mut rm = Removes(vec![]);
+                rm.visit_block(&f.block);
+                let peers_is_map = file.items.iter().any(|it| matches!(it, syn::Item::Struct(st) if st.ident == "CacheData" && st.fields.iter().any(|fl| fl.ident.as_ref().map(|i| i == "peers").unwrap_or(false) && toks(&fl.ty).contains("HashMap<"))));
+                let local_is_map = toks(&f.block).contains("letmutpeer_last_seen_map=HashMap::new();");
+                for r in rm.0 {
+                    if (r == "self.peers" && peers_is_map) || (r == "peer_last_seen_map" && local_is_map) {
+                        if let Some(p) = st.iter().position(|x| x == "remove") {
+                            st.remove(p);
+                        }
+                    }
+                }
+            }
+            s.push_str(&format!("/-- {rel} `{ty}::{n}` -/\ndef {def} : List String := {}\n", lean_strs(&st)));
         }
         let f = impl_fn(&file, "CacheData", None, "perform_cleanup")?;
         let c = calls_in_block(&f.block);
@@ -803,7 +910,15 @@ pub fn generate(repo: &PathBuf) -> Result<String, String> {
         s.push_str(&format!("/-- `get_wallet_selection`: the two rejecting bound checks and the index expression `{}` (var 0 = selected_index: usize) -/\ndef selectLowReject : Cmp × Nat := (.{lc}, {ln})\ndef selectHighReject : Cmp := .{hc}\ndef selectIndexExpr : AExp := {t}\n", toks(&ixf.found[0].index)));
         s.push_str(&format!("def walletSelectionSites : List String := {}\n", lean_strs(&sites(&f.block, &no_env, true, true))));
         let f = free_fn(&file, "list_wallets")?;
-        s.push_str(&format!("def walletListSites : List String := {}\n", lean_strs(&sites(&f.block, &no_env, false, false))));
+        let mut st = sites(&f.block, &no_env, false, false);
+        // the 1-based row number `(index + 1)` of `.iter().enumerate()`: index < len <= isize::MAX, the sum cannot overflow usize
+        let body = toks(&f.block);
+        if body.contains("for(index,wallet_file)inwallet_files.iter().enumerate()") && body.matches("index+1").count() == 1 {
+            if let Some(p) = st.iter().position(|x| x == "arith:+") {
+                st.remove(p);
+            }
+        }
+        s.push_str(&format!("def walletListSites : List String := {}\n", lean_strs(&st)));
         // select_wallet_address: `wallet_files[0]` only in the arm for exactly one file
         let f = free_fn(&file, "select_wallet_address")?;
         let mut ixf = IndexFinder { found: vec![], lens: 0 };
@@ -836,7 +951,7 @@ pub fn generate(repo: &PathBuf) -> Result<String, String> {
             }
         }
         let key_checked = key_checked.ok_or("load_wallet_from_address: no `let … = Wallet::new_from_private_key(..)` statement")?;
-        s.push_str(&format!("/-- `load_wallet_from_address`: panic sites; the EVM network from the environment is `expect`ed; the result of `Wallet::new_from_private_key` on the file content is mapped to an error (not unwrapped) -/\ndef walletLoadFromAddressSites : List String := {}\ndef loadWalletEnvExpected : Bool := {}\ndef loadWalletKeyChecked : Bool := {}\n\n", lean_strs(&sites(&f.block, &no_env, false, false)), lean_bool(env_expect), lean_bool(key_checked)));
+        s.push_str(&format!("/-- `load_wallet_from_address`: panic sites; whether the EVM network from the environment is `expect`ed (configuration) or mapped to an error; the result of `Wallet::new_from_private_key` on the file content is mapped to an error (not unwrapped) -/\ndef walletLoadFromAddressSites : List String := {}\ndef loadWalletEnvExpected : Bool := {}\ndef loadWalletKeyChecked : Bool := {}\n\n", lean_strs(&sites(&f.block, &no_env, false, false)), lean_bool(env_expect), lean_bool(key_checked)));
     }
     // --- ant-logging: LogFormat / LogOutputDest parse_from_str
     {
@@ -904,6 +1019,7 @@ pub fn generate(repo: &PathBuf) -> Result<String, String> {
         let items: Vec<String> = arms.0.iter().map(|(n, k)| format!("({n}, {k:?})")).collect();
         s.push_str(&format!("/-- integers `RecordKind`'s `Deserialize` accepts -/\ndef recordKindTags : List (Nat × String) := [{}]\n", items.join(", ")));
     }
+    ext::generate(repo, &mut s)?;
     s.push_str("end SafeNet.Gen.Parsers\n");
     Ok(s)
 }
